@@ -25,5 +25,27 @@ def sub(tag, body):
     s = s[:i + len(a)] + "\n" + body + "\n" + s[j:]
 sub("seeded", seed)
 sub("findings", find)
+# per-property rule catalogue: every rule attached to a property, with the rule's own statement
+import subprocess
+docs = {}
+out = subprocess.run([os.path.join(HERE, "bin", "elpscheck"), "-list"], capture_output=True, text=True).stdout
+for line in out.splitlines():
+    m = re.match(r"^(\S+)\s+floor=(\d+)\s+(.*)$", line)
+    if m:
+        docs[m.group(1)] = (m.group(2), m.group(3))
+props = {}
+src = open(os.path.join(HERE, "checker", "props.go")).read()
+for m in re.finditer(r'registerProp\(PropSpec\{ID: "(C\d+)",\s*Rules: \[\]string\{(.*?)\},\s*Explanation', src, re.S):
+    props[m.group(1)] = re.findall(r'"([^"]+)"', m.group(2))
+cat = []
+for pid in sorted(props):
+    cat.append(f"#### {pid}\n")
+    cat.append("| rule | floor | what it decides (the rule's own statement) |\n|---|---|---|")
+    for r in props[pid]:
+        fl, doc = docs.get(r, ("?", "(census / generated rule — see rules_census.go)"))
+        cat.append(f"| `{r}` | {fl} | {doc} |")
+    cat.append("")
+if "<!-- AUTOGEN:rules -->" in s:
+    sub("rules", "\n".join(cat))
 open(p, "w").write(s)
 print("tables regenerated:", len(rows), "mutants,", len(frows), "findings")
